@@ -3,7 +3,9 @@ package main
 import (
 	"fmt"
 	"go/ast"
+	"go/parser"
 	"go/token"
+	"os"
 	"strconv"
 	"strings"
 )
@@ -186,7 +188,8 @@ func extractOaRules() (string, error) {
 					case *ast.CallExpr:
 						// a value built by a helper of the file that returns a yaml.Node literal (stringNode)
 						if id, ok := x.Fun.(*ast.Ident); ok {
-							if h := findFunc(f, id.Name); h != nil && h.Body != nil {
+							// (the helper may live in any file of the package)
+							if h := findFuncInDir("internal/openapiv3", id.Name); h != nil && h.Body != nil {
 								var lit *ast.CompositeLit
 								ast.Inspect(h.Body, func(m ast.Node) bool {
 									if cl, ok := m.(*ast.CompositeLit); ok && lit == nil && srcOf(cl.Type) == "yaml.Node" {
@@ -287,4 +290,26 @@ func litKeys(e ast.Expr) []string {
 		}
 	}
 	return keys
+}
+
+// findFuncInDir finds a top-level function by name in any non-test Go file of a package directory of the repository.
+func findFuncInDir(dir, name string) *ast.FuncDecl {
+	ents, err := os.ReadDir(repo(dir))
+	if err != nil {
+		return nil
+	}
+	for _, e := range ents {
+		n := e.Name()
+		if !strings.HasSuffix(n, ".go") || strings.HasSuffix(n, "_test.go") {
+			continue
+		}
+		pf, err := parser.ParseFile(token.NewFileSet(), repo(dir+"/"+n), nil, 0)
+		if err != nil {
+			continue
+		}
+		if fd := findFunc(pf, name); fd != nil {
+			return fd
+		}
+	}
+	return nil
 }
